@@ -114,11 +114,25 @@ func init() {
 	register(&Property{
 		ID:        "C13",
 		Technique: "static analysis: term extraction and sibling comparison of shape calculators; path enumeration with boolean implication over the reshape gate",
-		Explain: "Decides: (S5) the shape-only slice calculator and the access-pattern slice calculator compute the same length term, which is ceil((end-start)/step); (S4) both validate through SliceDetails and refuse too many slices; (S7) every path of Reshape that reaches reshape() has established equal total size, is not a non-contiguous view and has materialised a pending lazy transpose, and reshape() only sets the shape and checks sanity. " +
+		Explain: "Decides: (S5) the shape-only slice calculator and the access-pattern slice calculator compute the same length term, which is ceil((end-start)/step); (S4) both validate through SliceDetails and refuse too many slices; (S7) every path of Reshape that reaches reshape() has established equal total size, is not a non-contiguous view and has materialised a pending lazy transpose, and reshape() only sets the shape and checks sanity; (O8) for the metadata-invariant clause: no two tensors own the same shape/strides slices (an alias lets one tensor's reshape or recycling zero the other's shape). " +
 			"Not decided: that shape and strides address distinct in-bounds positions (a runtime invariant over values), that reshape preserves the flat sequence, repeat/concat calculators' arithmetic.",
 		Run: func(rc *rules.RC) {
 			rules.S5(rc)
 			rules.S7(rc)
+			rules.O8(rc)
+		},
+	})
+	register(&Property{
+		ID:        "C19",
+		Technique: "static analysis: interprocedural ownership analysis over go/ssa (origin tracing with fixpoint summaries returns-param / retains / writes / recycles), mod-set of the recycle function, unique-owner rule for pool-managed access patterns",
+		Explain: "A history-quantified property becomes per-site ownership invariants decided over every function: (O1,O2,O3) no exported function recycles, retains or mutates a caller's []int/Shape/[]Slice/[]bool argument, directly or through any chain of callees (summaries by fixpoint; documented sharing is a named exception table); (O6) ReturnTensor stores a zero value into every leaf field of Dense before pooling it; (O7) ReturnTensor inside the library receives only tensors created in that function, or a parameter under the not-the-reuse-tensor guard; (O8) an access pattern (whose shape/strides slices AP.zero and SetShape return to the ints pool) read out of one object is stored elsewhere only as a move or after Clone, no exported function returns such an alias, no local alias is zeroed into the pool; (T2) the lazy-transpose triple is cleared together. If no live object can reach a slice in the free list and no caller slice is kept, written or recycled, no operation history can corrupt through that channel. " +
+			"Not decided: corruption through backing arrays the API documents as shared; use-after-return inside one function (O9) beyond the rules above.",
+		Assume: []string{"interface calls resolve to the module's implementing types (CHA restricted to the module)", "flow-insensitive origin tracing through locals and captured variables (over-approximates aliases)"},
+		Run: func(rc *rules.RC) {
+			oa := rules.O123(rc)
+			rules.O6(rc)
+			rules.O7(rc, oa)
+			rules.O8(rc)
 		},
 	})
 	register(&Property{
